@@ -99,7 +99,7 @@ pub fn read<S: Src>(s: &mut S, l0: usize, l1: usize, size: u64, le: bool) {
         }
         (Err(e), None) => {
             std::mem::forget(e);
-            cov!(s, addr + 1 == i.base[0] || addr == i.base[1] + i.len[1] - 1, "failing read at a segment boundary reached");
+            cov!(s, addr.wrapping_add(1) == i.base[0] || addr == i.base[1] + i.len[1] - 1, "failing read at a segment boundary reached");
         }
     }
     std::mem::forget(i);
